@@ -30,14 +30,56 @@ Definition obs_of (y : sys) (i : nat) (pn : bool) (evs : list event) : tobs :=
   | None => mkObs [] (0, 0) false None false None false
   end.
 
-(** a turn of the schedule: server, tick, faults *)
-Definition sturn := (nat * N * faults)%type.
+(** Interference inside a turn (operation-granularity interleaving, for the
+    correspondence check only): a foreign write that takes the record for
+    (instance id, tick) immediately before the turn's proposal ([wp]) and/or
+    immediately before the read-back of campaign ([wr]) - what another server's
+    successful CAS does when it is scheduled between two operations of this
+    turn.  With no interference this is [run_prog] (lemma [run_prog_x_none]). *)
+Definition interfere (w : option (N * N)) (r : rcd) : rcd :=
+  match w with Some x => Some x | None => r end.
+
+Fixpoint run_prog_x (who : nat) (fl : faults) (wp wr : option (N * N)) (nreads : nat) (r : rcd) (p : prog)
+         (log : list event) : rcd * server * bool * list event :=
+  match p with
+  | PDone s pn => (r, s, pn, rev log)
+  | PRead k =>
+      let r0 := match nreads with O => r | _ => interfere wr r end in
+      let f := match nreads with O => f_r1 fl | _ => f_r2 fl end in
+      let a := read_resp f r0 in
+      run_prog_x who fl wp wr (S nreads) r0 (k a) (ERead who a :: log)
+  | PSess k =>
+      let ok := sess_resp (f_s fl) in
+      run_prog_x who fl wp wr nreads r (k ok) (ESess who ok :: log)
+  | PCas self old tick k =>
+      let r0 := interfere wp r in
+      let '(r', a) := cas_resp (f_p fl) r0 self old tick in
+      run_prog_x who fl wp wr nreads r' (k a) (cas_event who (f_p fl) r0 self old tick :: log)
+  | PClose k => run_prog_x who fl wp wr nreads r k (EClose who :: log)
+  end.
+
+Definition turn_x (thr : N) (who : nat) (fl : faults) (wp wr : option (N * N)) (r : rcd) (s : server) (tick : N)
+  : rcd * server * bool * list event :=
+  run_prog_x who fl wp wr 0 r (turn_prog thr s tick) [].
+
+Definition sys_turn_at_x (thr : N) (i : nat) (tick : N) (fl : faults) (wp wr : option (N * N)) (y : sys)
+  : sys * bool * list event :=
+  match nth_error (y_ws y) i with
+  | None => (y, false, [])
+  | Some w =>
+      let '(r', s', pn, evs) := turn_x thr i fl wp wr (y_rec y) (w_srv w) tick in
+      (mkSys r' (upd (y_ws y) i (mkW s' tick)), pn, evs)
+  end.
+
+(** a turn of the schedule: server, tick, faults, interference before the
+    proposal, interference before the read-back *)
+Definition sturn := (nat * N * faults * option (N * N) * option (N * N))%type.
 
 Fixpoint replay (thr : N) (turns : list sturn) (y : sys) : list tobs :=
   match turns with
   | [] => []
-  | (i, tick, fl) :: rest =>
-      let '(y', pn, evs) := sys_turn_at thr i tick fl y in
+  | (i, tick, fl, wp, wr) :: rest =>
+      let '(y', pn, evs) := sys_turn_at_x thr i tick fl wp wr y in
       obs_of y' i pn evs :: replay thr rest y'
   end.
 
